@@ -19,7 +19,13 @@ RULE = ("(a) units: LogLikelihoods.logsumexp on vectors of length 0-12 with -inf
         "all inputs with vlib.gen.exotic decorations (extra flag bits, ALL nodes renumbered, mutation-free sites, allele "
         "strings, populations, mutation times), 15% with tied node times; (c) oracle: explicit prior rows or a prior built "
         "by tsdate.build_prior_grid (exact / approximate / gamma, 4-20 timepoints, allow_unary), on 30% ONE priors "
-        "object reused by all four calls; thorough: 10 larger inputs (12-25 samples); the public "
+        "object reused by all four calls; thorough: 10 larger inputs (12-25 samples); plus a 'steep dynamic range "
+        "without underflow' family (oracle only, 40 quick / 300 thorough): the reported 3-leaf shape, every shape with 3-5 "
+        "leaves and msprime trees with very unbalanced per-edge mutation counts (0 on most internal edges, 50-300 on some "
+        "sample edges), mutation_rate x span x grid range in {20,40,80,150}, uniform and random grids of 5-25 timepoints, "
+        "eps in {0,1e-8,1e-3,1e-2}, explicit or built priors, both methods; a case counts only if every finite quantity of "
+        "the LOGARITHMIC run (inside, outside, likelihood, edge likelihood tables) lies in [log 1e-250, log 1e250], "
+        "otherwise it is outside the premise and only tallied (about half are in the premise); the public "
         "inside_outside and maximization functions run in both spaces on the same input. A case is non-trivial "
         "when the input has mutations and >= 2 internal nodes; distinct by content hash."
         "About half of the inputs carry 1-3 extra mutations that sit on NO edge (above the root of the local tree; valid tskit input); the references count only mutations on edges, computed from the tables.")
@@ -175,6 +181,77 @@ def _gen_cases(ctx, n_single, n_multi):
     return cases
 
 
+def unbalanced_counts(rng, d):
+    """very unbalanced per-edge mutation counts: none on most edges into non-sample nodes, 50-300 on some
+    sample edges (the mutation clock then pushes a parent far from where a mutation-free edge wants it)"""
+    counts = []
+    for _l, _r, _p, c in d["edges"]:
+        if d["nodes_flags"][c]:
+            counts.append(rng.choice([0, 0, 1, 3, rng.randint(50, 300), rng.randint(50, 300)]))
+        else:
+            counts.append(rng.choice([0, 0, 0, 0, 1, rng.randint(50, 150)]))
+    if max(counts) < 50:
+        k = rng.choice([i for i, e in enumerate(d["edges"]) if d["nodes_flags"][e[3]]])
+        counts[k] = rng.randint(50, 300)
+    return counts
+
+
+def gen_steep(ctx, n):
+    """'steep dynamic range without underflow': small trees (hand-built shapes and msprime) whose edge
+    likelihoods fall by many orders of magnitude across the time grid although every quantity stays
+    representable; mutation_rate x span x grid range in {20, 40, 80, 150}, fine and coarse grids"""
+    rng = ctx.rng
+    shapes = [s for k in range(3, 6) for s in D.tree_shapes(k)]
+    demo = ((), ((), ()))          # ((0,1)3,2)4, the shape of the reported example
+    cases = []
+    for k in range(n):
+        r = rng.random()
+        if r < 0.3:
+            d = D.shape_to_tables(demo, rng, L=1.0)
+            kind = "steep/demo-shape"
+        elif r < 0.7:
+            d = D.shape_to_tables(rng.choice(shapes), rng, L=rng.choice([1.0, 10.0]))
+            kind = "steep/shape"
+        else:
+            d = D.sim_dict(rng, n=rng.randint(3, 5), trees=rng.choice(["single", "multi"]))
+            d = dict(d, sites=[], mutations=[])
+            for key in ("site_anc", "mut_der", "mut_time"):
+                d.pop(key, None)
+            kind = "steep/msprime"
+        d = D.canon(d)
+        if k % 5 == 0 and kind == "steep/demo-shape":
+            counts = [100 if (d["nodes_flags"][c] and p == max(e[2] for e in d["edges"])) else 0
+                      for _l, _r, p, c in d["edges"]]          # the reported example: 100 mutations on the root's sample edge
+        else:
+            counts = unbalanced_counts(rng, d)
+        d = D.canon(D.add_mutations(d, counts, rng))
+        T = rng.choice([0.6, 1.2, 3.0])
+        G = rng.choice([5, 8, 13, 25])
+        if rng.random() < 0.6:
+            grid = [float(x) for x in np.linspace(0, T, G)]
+        else:
+            cuts = sorted(rng.random() for _ in range(G - 2))
+            grid = [0.0] + [round(T * x, 6) for x in cuts] + [T]
+            if len(set(grid)) < G:
+                grid = [float(x) for x in np.linspace(0, T, G)]
+        product = rng.choice([20, 40, 80, 150])
+        mu = product / (d["L"] * T)
+        o = D.random_options(rng, ctx.tier == "thorough")
+        o["num_threads"] = None
+        o["ignore_oldest_root"] = False
+        o["share_priors"] = False
+        built = rng.random() < 0.5
+        o["prior_kind"] = "built" if built else "explicit"
+        o["prior_timepoints"] = grid
+        c = D.make_case(rng, d, grid=grid, space=D.LOG, mu=mu, kind=kind, steep=True, product=product,
+                        offedge=0, exotic=False, ties=False, **o)
+        c["eps"] = rng.choice([0.0, 1e-8, 1e-3, 1e-2])
+        for u in c["prior"]:
+            c["prior"][u][0] = 0.0           # no prior mass at time 0 for a parent (as in every built prior)
+        cases.append(c)
+    return cases
+
+
 def run_options(ctx):
     """options of one case; the same values go to every call (both spaces, both methods)"""
     rng = ctx.rng
@@ -210,7 +287,7 @@ def api_run(case, space, method, shared=None):
         mn = [n.metadata.get("mn") if n.metadata else None for n in new.nodes()]
         vr = [n.metadata.get("vr") if n.metadata else None for n in new.nodes()]
         return {"times": [float(x) for x in new.nodes_time], "post": post, "lik": float(lik), "mn": mn, "vr": vr,
-                "grid": [float(x) for x in fit.lik.timepoints],
+                "grid": [float(x) for x in fit.lik.timepoints], "tab": table_range(fit, ts, space),
                 "inside": D.inside_rows(fit, ts.num_nodes),
                 "outside": [([float(a) for a in fit.outside[u]] if np.ndim(fit.outside[u]) == 1 else None)
                             for u in range(ts.num_nodes)]}
@@ -221,6 +298,24 @@ def api_run(case, space, method, shared=None):
     return {"times": [float(x) for x in new.nodes_time], "pm": [float(x) for x in fit.posterior_mean],
             "grid": [float(x) for x in fit.lik.timepoints],
             "inside": D.inside_rows(fit, ts.num_nodes), "fit": fit}
+
+
+def table_range(fit, ts, space):
+    """(min, max) over the finite entries of the edge likelihood tables of a LOGARITHMIC run, leaving out
+    the parent-at-timepoint-0 entries (the first timepoint carries no prior mass for a parent in these runs)"""
+    if space != D.LOG:
+        return None
+    vals = []
+    G = len(fit.lik.timepoints)
+    for tab in fit.lik.unfixed_likelihood_cache.values():
+        a = np.asarray(tab, dtype=float)[1:]          # row 0 of the lower triangle = parent at index 0
+        vals.append(a[np.isfinite(a)])
+    for e in ts.edges():
+        if e.child in fit.lik.fixednodes:
+            a = np.asarray(fit.lik.get_mut_lik_fixed_node(e), dtype=float)[1:]
+            vals.append(a[np.isfinite(a)])
+    vals = np.concatenate(vals) if vals else np.array([0.0])
+    return (float(vals.min()), float(vals.max())) if len(vals) else (0.0, 0.0)
 
 
 def underflow(lin_rows, log_rows):
@@ -246,14 +341,23 @@ def rel_diff(a, b):
     return abs(a - b) / max(abs(a), abs(b), 1e-300)
 
 
-def log_moderate(log):
-    """no logarithmic value of the run is below -600: the linear run has no excuse to underflow"""
+LOG_LO, LOG_HI = math.log(1e-250), math.log(1e250)
+
+
+def log_moderate(log, strict=False):
+    """no logarithmic value of the run is below -600: the linear run has no excuse to underflow.
+    strict (steep-dynamic-range family): every finite quantity of the logarithmic run -- inside, outside,
+    likelihood, edge likelihood tables -- lies inside [log 1e-250, log 1e250]"""
     vals = [log["lik"]]
     for rows in (log["inside"], log["outside"]):
         for r in rows:
             if r is not None:
-                vals += [x for x in r if x != -math.inf and not math.isnan(x)]
-    return min(vals) > -600.0
+                vals += [x for x in r if not math.isinf(x) and not math.isnan(x)]
+    if not strict:
+        return min(vals) > -600.0
+    if log.get("tab"):
+        vals += list(log["tab"])
+    return min(vals) > LOG_LO and max(vals) < LOG_HI
 
 
 def oracle_case(ctx, case, stats):
@@ -279,7 +383,14 @@ def oracle_case(ctx, case, stats):
         ctx.oracle_fail("exception:" + type(elog).__name__,
                         "inside_outside raised %r in logarithmic space but returned in linear space" % (elog,), rp)
         return
-    moderate = log_moderate(log)
+    steep = bool(case.get("steep"))
+    moderate = log_moderate(log, strict=steep)
+    if steep:
+        if not moderate:
+            # outside the premise of the property (something leaves the double range): only counted
+            ctx.tally("steep/outside-premise")
+            return
+        ctx.tally("steep/in-premise")
     if elin is not None:
         if moderate:
             ctx.oracle_fail("exception:" + type(elin).__name__,
@@ -302,6 +413,8 @@ def oracle_case(ctx, case, stats):
         worst = max(worst, abs(math.log(lin["lik"]) - log["lik"]) / (1.0 + abs(log["lik"]))
                     if lin["lik"] > 0 else math.inf)
         stats["io"] = max(stats.get("io", 0.0), worst)
+        if steep:
+            stats["io_steep"] = max(stats.get("io_steep", 0.0), worst)
         if not worst <= TOL:
             ctx.oracle_fail("inside_outside-spaces-differ", "linear and logarithmic results differ by %.3g" % worst,
                             dict(rp, lin={k: lin[k] for k in ("times", "lik", "mn", "vr")},
@@ -353,12 +466,12 @@ def run(ctx, model_ok=True):
     if model_ok:
         D.check_float_funs(ctx)
     units(ctx, model_ok)
-    cases = gen_cases(ctx, ctx.n(12, 150), ctx.n(20, 200))
+    cases = gen_cases(ctx, ctx.n(12, 150), ctx.n(20, 200)) + gen_steep(ctx, ctx.n(40, 300))
     # (b) whole runs, both classes against the model
     if model_ok:
         both = []
         for c in cases:
-            if c["kind"] == "big":
+            if c["kind"] == "big" or c.get("steep"):
                 continue
             both.append(direct(c))
             both.append(dict(direct(c), space=D.LIN))
@@ -389,12 +502,13 @@ def run(ctx, model_ok=True):
                  kind="run/" + c["kind"])
         oracle_case(ctx, c, stats)
     ctx.notes["max_lin_vs_log_difference"] = stats.get("io", 0.0)
+    ctx.notes["max_lin_vs_log_difference_steep_family"] = stats.get("io_steep", 0.0)
     ctx.notes["tolerance"] = TOL
 
 
 def search(ctx):
     stats = {}
-    for c in gen_cases(ctx, ctx.n(150, 600), ctx.n(250, 1000)):
+    for c in gen_steep(ctx, ctx.n(150, 600)) + gen_cases(ctx, ctx.n(150, 600), ctx.n(250, 1000)):
         oracle_case(ctx, c, stats)
         if ctx.oracle_fails:
             return
